@@ -342,7 +342,8 @@ pub fn lengths(thorough: bool, rng: &mut Prng) -> Vec<usize> {
         for _ in 0..6 {
             v.push(rng.below(3000));
         }
-        v.extend([65535, 65536]);
+        // the upper end of the property's quantification (1 MiB) in the quick tier too
+        v.extend([65535, 65536, (1 << 20) - 1, 1 << 20]);
     }
     v.sort();
     v.dedup();
